@@ -88,6 +88,18 @@ def replay_gen(chk: Check, cfg, states, qseq, tier):
                 want_o = sorted(set(want_i) - set(want_c))
                 if cov != want_c or ov != want_o:
                     report(chk, bs, d, ps, p, aff, qseq[qi], "covers_overlaps", [cov, ov], [want_c, want_o])
+            # history: the caller reuses its bounds buffer after the index was built - the index must not alias it
+            if n and not np.isnan(bounds).any():
+                first = [(qi, sorted(int(x) for x in tree.intersects(tuple(Qa[qi])))) for qi in range(0, len(qseq), 5)]
+                bounds[...] = 987654.0
+                for qi, got0 in first:
+                    again = sorted(int(x) for x in tree.intersects(tuple(Qa[qi])))
+                    if again != got0:
+                        report(chk, bs, d, ps, p, aff, qseq[qi], "intersects after the caller overwrote the array the index was built from", again, got0)
+                        break
+                tb2 = np.array(tree.total_bounds, dtype="float64")
+                if not np.array_equal(tb2, tb, equal_nan=True):
+                    report(chk, bs, d, ps, p, aff, None, "total_bounds after the caller overwrote the array the index was built from", tb2.tolist(), tb.tolist())
             for qi, raw, got in held:
                 if sorted(int(x) for x in raw) != got:
                     report(chk, bs, d, ps, p, aff, qseq[qi], "intersects / covers_overlaps (the returned array, looked at again after later queries on the same index)",
